@@ -26,10 +26,10 @@ func init() {
 }
 
 func worker(jobs chan int, source io.Reader, wg *sync.WaitGroup) {
-	_ = os.MkdirAll("target/data", os.FileMode(0600))
+	_ = os.MkdirAll(output, os.FileMode(0600))
 	buf := make([]byte, n/8)
 	for i := range jobs {
-		name := fmt.Sprintf("target/data/random%d.bin", i)
+		name := filepath.Join(output, fmt.Sprintf("random%d.bin", i))
 		fmt.Println(">> 生成随机数: ", name)
 		w, err := os.OpenFile(name, os.O_CREATE|os.O_TRUNC|os.O_RDWR, os.FileMode(0600))
 		if err != nil {
